@@ -197,22 +197,37 @@ def derives (t : Table) (a : Nat) : Nat → Nat → Bool
 def libClassId (n : String) : Nat :=
   if n = "Generic" then 0 else if n = "GenericMixin" then 1 else if n = "ABC" then 2 else 3
 
-/-- the loop passes over a subscripted base with origin `o`:
-    `if not (isinstance(base.__origin__, type) and issubclass(base.__origin__, <Class>)): continue` (every origin here is a class) -/
-def originPassedOver (t : Table) (d o : Nat) : Bool :=
-  match loopOriginMustDeriveFrom with
-  | none => false
-  | some n => !(derives t (libClassId n) d o)
+/-- origin of a subscripted base (`Generic[…]`: `typing.Generic`) -/
+def BaseRef.origin : BaseRef → Nat
+  | .generic _ => genericId
+  | .param c _ => c
+  | .plain c => c
 
-/-- the loop `for base in self.__orig_bases__` (first generic origin that is not passed over wins: `break`) -/
+/-- `subscripted_bases`: the bases that have an `__origin__` -/
+def subscriptedBases (bs : List BaseRef) : List BaseRef := bs.filter BaseRef.isAlias
+
+/-- `mixin_bases`: the subscripted bases whose origin is a class derived from library class `n`
+    (`isinstance(b.__origin__, type) and issubclass(b.__origin__, <Class>)`; every origin here is a class) -/
+def mixinBases (t : Table) (d : Nat) (n : String) (bs : List BaseRef) : List BaseRef :=
+  (subscriptedBases bs).filter fun b => derives t (libClassId n) d b.origin
+
+/-- the bases the loop runs over: all subscripted bases; with a preferred origin class only the subscripted bases of that kind
+    (a `continue` test or the list `mixin_bases`), and — `mixin_bases or subscripted_bases` — all of them again when there is none -/
+def loopCandidates (t : Table) (d : Nat) (bs : List BaseRef) : List BaseRef :=
+  match loopPrefersOriginsDerivedFrom with
+  | none => subscriptedBases bs
+  | some n =>
+    if loopFallsBackToAll && (mixinBases t d n bs).isEmpty then subscriptedBases bs else mixinBases t d n bs
+
+/-- the loop `for base in …` (first origin that shows a `Generic[…]` wins: `break`) -/
 def loopBases (t : Table) (d : Nat) : List BaseRef → LoopRes
   | [] => .notFound
-  | .plain _ :: rest => loopBases t d rest                            -- no `__origin__`: continue
+  | .plain _ :: rest => loopBases t d rest                            -- no `__origin__` (never among the candidates)
   | .generic _ :: rest =>
-    if originPassedOver t d genericId then loopBases t d rest         -- `Generic` is no subclass of the required class: continue
-    else .raised .originBases "AttributeError"                        -- typing.Generic has no `__orig_bases__`
+    if loopSkipsOriginsWithoutOrigBases then loopBases t d rest       -- typing.Generic has no `__orig_bases__`: continue
+    else .raised .originBases "AttributeError"
   | .param o args :: rest =>
-    if originPassedOver t d o then loopBases t d rest else
+    if loopSkipsOriginsWithoutOrigBases && (lookupOrigBases t d o).isNone then loopBases t d rest else
     match getGenericBase (lookupOrigBases t d o) with
     | .raised s e => .raised s e
     | .ok (some gb) => .found gb args
@@ -237,7 +252,7 @@ def getTypes (t : Table) (d c : Nat) (orig : Option (List TArg)) : Res (List (TA
     match obs with
     | none => .raised .noneArgs "AttributeError"
     | some bs =>
-      match loopBases t d bs with
+      match loopBases t d (loopCandidates t d bs) with
       | .found gb types => .ok (mkDict gb types)
       | .notFound => .raised .noneArgs "AttributeError"            -- `generic_base.__args__` on None
       | .raised s e => .raised s e
